@@ -16,4 +16,19 @@ PROPS = {
         assumptions=['ing_raw_on_success: an ingester returns a raw record whenever it reports success '
                      '(proved for the built-in ingester; required of caller-supplied ones)'],
     ),
+    'C09': dict(
+        harness='c09', props='Props/C09.v', models=['Model/Chunk.v'],
+        trusted=['encoding/csv, encoding/json, encoding/xml decoders (they sit on bufio) are assumed chunk-invariant; '
+                 'the theorems cover the omniparser / go-corelib / bufio layers below them, the implementation-side '
+                 'metamorphic oracle covers the whole stack for all seven formats',
+                 'bufio.Reader, bufio.Scanner, go-corelib ios (StripBOM, BytesReplacingReader, ByteReadLine, NewScannerByDelim3) and the '
+                 'x/text charmap decoder are transcribed from their sources into Model/Chunk.v and compared with the real code on every run'],
+        assumptions=['no 100 consecutive empty reads ((0, nil)) from the input reader (bufio gives up with io.ErrNoProgress)'],
+    ),
+    'C16': dict(
+        harness='c16', props='Props/C16.v', models=['Model/Chunk.v', 'Model/Fault.v'],
+        trusted=['stdlib decoders (encoding/csv|json|xml) return the error of their input reader after a prefix of the fault-free tokens (error transparency)',
+                 'classification tables are extracted from the seven IsContinuableError bodies (Gen/Continuable.v)'],
+        assumptions=['the fault is a non-EOF error that persists (the same error forever, or one error once and another one forever)'],
+    ),
 }
